@@ -28,6 +28,9 @@ import MalVerif.Py.GenLegacy.Updater
 import MalVerif.Py.GenLegacy.Securicad
 import MalVerif.Py.GenLang.Assocs
 import MalVerif.Py.AbsLangGraph
+import MalVerif.Py.GenNeo4j.IngestModel
+import MalVerif.Py.GenNeo4j.IngestGraph
+import MalVerif.Py.GenNeo4j.GetModel
 open Lean MalVerif
 
 namespace Drv
@@ -1184,6 +1187,76 @@ def opGenLegacy (j : Json) : R Json := do
 
 end GenXLeg
 
+/-! #### the Neo4j ingestor of `Py/GenNeo4j` on the recording database of the prelude (C19) -/
+namespace GenXNeo
+open MalVerif.PyN
+
+/-- the recorded database: every stored node with all labels and all properties (in the order of the keyword arguments),
+every stored relationship between positions, in stored order -/
+def dbToJson (db : Db) : Json :=
+  jO [("nodes", jsonOfList (fun (n : NeoNode) => jO [("labels", jsonOfList jS n.labels),
+          ("props", jsonOfList (fun (e : String × String) => Json.arr #[jS e.1, jS e.2]) n.props)]) db.nodes),
+      ("rels", jsonOfList (fun (r : DbRel) => Json.arr #[jN r.src, jS r.type, jN r.dst]) db.rels)]
+
+/-- the language side of `get_model` (parameters of the translation): the `LanguageGraph` object is `heapOfLang L nodes` asked
+with the GENERATED `get_association_by_fields_and_assets` (`GenXLeg.lgView`), `get_association_by_signature` and the class
+namespace are the conventions of `PreludeLegacy` (`facAssocBySignature`, `MS.assocClasses`) -/
+def neoEnv (L : Lang) (nodes : List AssocDecl) (menv : PyM.ModelEnv) : NeoEnv :=
+  let lg := GenXLeg.lgView L nodes
+  let fac : PyLeg.Factory := { L := L, floatOk := fun _ => true }
+  let cv {α : Type} (r : Except PyLeg.LErr α) : Except PyM.PyErr α :=
+    match r with | .ok a => .ok a | .error (.py e) => .error e | .error _ => .error .other
+  { menv := menv
+    get_association_by_fields_and_assets := fun f1 f2 t1 t2 =>
+      match cv (lg.get_association_by_fields_and_assets f1 f2 t1 t2) with
+      | .ok (some d) => .ok (some { name := d.name, left_field := ⟨⟨d.leftAsset⟩, d.leftField⟩, right_field := ⟨⟨d.rightAsset⟩, d.rightField⟩ })
+      | .ok none => .ok none
+      | .error e => .error e
+    get_association_by_signature := fun n l r => cv (PyLeg.facAssocBySignature fac n l r)
+    ns_has := fun t => (L.findAsset t).isSome || (MS.assocClasses L).any (·.cls = t)
+    ns_new_asset := fun t n => if (L.findAsset t).isSome then .ok { type := t, name := some n } else .error .attributeError
+    ns_new_assoc := fun c =>
+      match (MS.assocClasses L).find? (·.cls = c) with
+      | some k => if h : k.lf ≠ k.rf then .ok { cls := c, lf := k.lf, rf := k.rf, distinct := h } else .error .other
+      | none => .error .attributeError }
+
+/-- the model built by the history (generated `model_*` functions, as `gen_model_hist`), `ingest_model(model, …, delete=True)`
+into the empty recording database, then `get_model(…)` over what was stored -/
+def opGenNeo4jModel (j : Json) : R Json := do
+  let L ← Drv.parseLang (← jget j "lang")
+  let ops ← jfield jarr j "ops"
+  let mut s : PyM.H := { name := "hist" }
+  for o in ops do
+    let (s', err, _) ← GenXM.mStepGen L s o
+    if let .str e := err then
+      if e.startsWith "skip:" then return jO [("skip", jS e)]
+    s := GenXM.normH s'
+  match Gen.ingest_model {} s "uri" "u" "p" "db" true with
+  | .error e => pure (jO [("error", jS (GenXM.pyErrName e))])
+  | .ok w =>
+    let sub := dbToJson w.db
+    match LG.generate L with
+    | .error e => pure (jO [("sub", sub), ("objs", jN w.objs.length), ("back", jO [("skip", jS (Drv.lgErrName e))])])
+    | .ok lg =>
+      let menv : PyM.ModelEnv := { eqA := fun _ _ => false, eqL := fun _ _ => false, whileFuel := w.db.nodes.length + 2 }
+      let back := match Gen.get_model w (neoEnv L lg.assocs menv) "uri" "u" "p" "db" with
+        | .ok s' => let s' := GenXM.normH s'; jO [("loaded", Drv.obsM L (PyM.abs s')), ("name", jS s'.name)]
+        | .error e => jO [("error", jS (GenXM.pyErrName e))]
+      pure (jO [("sub", sub), ("objs", jN w.objs.length), ("back", back)])
+
+/-- the attack graph built by the history (generated functions, as `gen_ag_hist`), `ingest_attack_graph(graph, …, delete=True)` -/
+def opGenNeo4jGraph (j : Json) : R Json := do
+  let ops ← jfield jarr j "ops"
+  let mut s : MalVerif.Py.H := {}
+  for o in ops do
+    let (s', _, _) ← GenX.agStepGen s o
+    s := GenX.normH s'
+  match Gen.ingest_attack_graph {} s "uri" "u" "p" "db" true with
+  | .error e => pure (jO [("error", jS (GenX.pyErrName e))])
+  | .ok w => pure (jO [("sub", dbToJson w.db), ("objs", jN w.objs.length)])
+
+end GenXNeo
+
 def dispatch (j : Json) : R Json := do
   let op ← jfield jstr j "op"
   match op with
@@ -1209,6 +1282,8 @@ def dispatch (j : Json) : R Json := do
   | "gen_model_hist" => GenXM.opGenModelHist j
   | "gen_resolve" => GenXL.opGenResolve j
   | "gen_legacy" => GenXLeg.opGenLegacy j
+  | "gen_neo4j_model" => GenXNeo.opGenNeo4jModel j
+  | "gen_neo4j_graph" => GenXNeo.opGenNeo4jGraph j
   | _ => throw "bad-op"
 
 def handle (line : String) : String :=
